@@ -73,6 +73,12 @@ impl TokenBucket {
         }
     }
 
+    /// Whether a token is available right now (refills first, consumes nothing).
+    pub fn has_token(&mut self) -> bool {
+        self.refill();
+        self.tokens >= 1.0
+    }
+
     /// Refund one consumed token (best-effort).
     ///
     /// Used to maintain fairness when a downstream/global limit rejects after a tenant token
@@ -202,20 +208,7 @@ impl RateLimiter {
                 let bucket = Arc::clone(bucket);
                 drop(buckets); // Release read lock before acquiring mutex
 
-                // Consume tenant token first.
-                if !bucket.lock().try_consume() {
-                    return false;
-                }
-
-                // Consume global token only after tenant passes.
-                if let Some(global) = &self.global_bucket {
-                    if !global.lock().try_consume() {
-                        bucket.lock().refund_one();
-                        return false;
-                    }
-                }
-
-                return true;
+                return self.admit(&bucket);
             }
         }
 
@@ -231,20 +224,29 @@ impl RateLimiter {
             )
         };
 
-        // Consume tenant token after releasing write lock.
-        if !bucket.lock().try_consume() {
+        // Admit after releasing the map's write lock.
+        self.admit(&bucket)
+    }
+
+    /// Take one token from the tenant bucket and, if configured, one from the global bucket --
+    /// both or neither.
+    ///
+    /// The tenant bucket stays locked while the global bucket is consulted (lock order is
+    /// always tenant -> global). Consuming the tenant token first and refunding it after a
+    /// global refusal would keep a token "in flight" outside the bucket: the bucket refills
+    /// up to its capacity meanwhile, the refund lands on top, and concurrent callers can be
+    /// admitted beyond burst + rate * interval.
+    fn admit(&self, bucket: &Mutex<TokenBucket>) -> bool {
+        let mut tenant = bucket.lock();
+        if !tenant.has_token() {
             return false;
         }
-
-        // Consume global token only after tenant passes.
         if let Some(global) = &self.global_bucket {
             if !global.lock().try_consume() {
-                bucket.lock().refund_one();
                 return false;
             }
         }
-
-        true
+        tenant.try_consume()
     }
 
     /// Get current available tokens for tenant (for observability)
